@@ -10,18 +10,18 @@ use crate::json::J;
 use crate::model::*;
 use crate::rng::Rng;
 
-pub const RULE12: &str = "case = (alphabet, scoring matrix of width 2..6 (thorough 2..8; protein 2..3) with finite non-wildcard entries, uniform, dyadic non-uniform or zero-on-some-regular-symbols background; rows strictly positive / negative / with a positive minimum below 0.1). Half of the cases serve all their queries (in shuffled order) from ONE TfmPvalue object, disturbed between queries by other complete or abandoned pvalue / score refinements, which must not change any answer. The exact distribution is enumerated over all words; for query scores below the minimum (near and far), above the maximum, exactly attainable, just above / below an attainable value and random, EVERY Iteration of approximate_pvalue down to granularity 1e-8 must report 0 <= pmin <= pmax <= 1 with P(S >= s+(M+1)g) <= pmin and pmax <= P(S >= s-(M+2)g) (+-1e-9); where convergence was observed pvalue(s) must equal the converged lower bound. Non-trivial = query inside [min-1, max+1]; distinct = distinct (matrix, background, score).";
+pub const RULE12: &str = "case = (alphabet, scoring matrix of width 2..6 (thorough 2..8; protein 2..3) with finite non-wildcard entries, uniform, dyadic non-uniform, zero-on-some-regular-symbols or wildcard-weighted background (the wildcard is then one more symbol of the exact model); rows strictly positive / negative / with a positive minimum below 0.1). Half of the cases serve all their queries (in shuffled order) from ONE TfmPvalue object, disturbed between queries by other complete or abandoned pvalue / score refinements, which must not change any answer. The exact distribution is enumerated over all words; for query scores below the minimum (near and far), above the maximum, exactly attainable, just above / below an attainable value and random, EVERY Iteration of approximate_pvalue down to granularity 1e-8 must report 0 <= pmin <= pmax <= 1 with P(S >= s+(M+1)g) <= pmin and pmax <= P(S >= s-(M+2)g) (+-1e-9); where convergence was observed pvalue(s) must equal the converged lower bound. Non-trivial = query inside [min-1, max+1]; distinct = distinct (matrix, background, score).";
 
 pub const RULE13: &str = "case = (alphabet, matrix, background and object reuse as C12, p in (0,1) equal to attainable tail probabilities, between them, and log-uniform). EVERY Iteration of approximate_score down to granularity 1e-8 returns a threshold t with, d = (M+2)g: P(S >= t+d) <= p and, if u is the largest attainable score below t-d, P(S >= u-d) >= p (+-1e-9); score(p) where convergence was observed equals the converged threshold. Non-trivial = p above the smallest attainable tail; distinct = distinct (matrix, background, p).";
 
 pub const REQUIRED12: &[&str] = &[
     "alphabet.dna", "alphabet.protein", "bg.uniform", "bg.nonuniform", "query.below_min", "query.far_below_min",
     "query.above_max", "query.attainable", "query.attainable_eps", "query.random", "iterations.checked", "converged.observed",
-    "pvalue.checked", "matrix.finite_wildcard_column", "bg.zero_frequency_symbols", "object.reused_after_other_queries", "matrix.row_min_in_(0,0.1)",
+    "pvalue.checked", "matrix.finite_wildcard_column", "bg.zero_frequency_symbols", "bg.wildcard_weighted", "object.reused_after_other_queries", "matrix.row_min_in_(0,0.1)",
 ];
 pub const REQUIRED13: &[&str] = &[
     "alphabet.dna", "alphabet.protein", "bg.uniform", "bg.nonuniform", "p.attainable_tail", "p.between_tails",
-    "p.log_uniform", "iterations.checked", "converged.observed", "score.checked", "lower_side.checked", "matrix.finite_wildcard_column", "bg.zero_frequency_symbols", "object.reused_after_other_queries", "matrix.row_min_in_(0,0.1)",
+    "p.log_uniform", "iterations.checked", "converged.observed", "score.checked", "lower_side.checked", "matrix.finite_wildcard_column", "bg.zero_frequency_symbols", "bg.wildcard_weighted", "object.reused_after_other_queries", "matrix.row_min_in_(0,0.1)",
 ];
 
 pub struct Setup<A: Alphabet> {
@@ -30,6 +30,10 @@ pub struct Setup<A: Alphabet> {
     pub bgv: Vec<f32>,
     pub fam: &'static str,
     pub ex: ExactDist,
+    /// the exact distribution of the same matrix with every wildcard cell read as -inf, present
+    /// when the background gives the wildcard a non-zero frequency AND a wildcard cell is finite:
+    /// root-cause predicate of the known finding "TFM-PVALUE ignores the wildcard symbol"
+    pub ex_nowild: Option<ExactDist>,
     pub m: usize,
 }
 
@@ -37,6 +41,7 @@ pub fn setup<A: Alphabet>(rng: &mut Rng, rep: &mut Report, max_m: usize) -> Opti
     let k = k_of::<A>();
     let m = rng.range(2, max_m);
     let mut zero_freq = false;
+    let mut wild_weight = false;
     let (bgv, bg) = if rng.chance(0.12) {
         // some regular symbols never occur (e.g. an AT-only background): legal, and the words
         // containing them carry no probability
@@ -59,6 +64,12 @@ pub fn setup<A: Alphabet>(rng: &mut Rng, rep: &mut Report, max_m: usize) -> Opti
         }
         let mut bgv: Vec<f32> = parts.iter().map(|&p| p as f32 / unit as f32).collect();
         bgv.push(0.0);
+        (bgv.clone(), Background::<A>::new(bgv.iter().cloned().collect::<GenericArray<f32, A::K>>()).ok()?)
+    } else if rng.chance(0.12) {
+        // the wildcard has a non-zero frequency: it is one more symbol of the random word
+        rep.cover("bg.wildcard_weighted");
+        wild_weight = true;
+        let bgv = dyadic_full_bg(rng, k);
         (bgv.clone(), Background::<A>::new(bgv.iter().cloned().collect::<GenericArray<f32, A::K>>()).ok()?)
     } else if rng.chance(0.5) {
         rep.cover("bg.uniform");
@@ -130,7 +141,22 @@ pub fn setup<A: Alphabet>(rng: &mut Rng, rep: &mut Report, max_m: usize) -> Opti
     };
     let rows: Vec<Vec<f32>> = (0..m).map(|i| pssm.matrix()[i].to_vec()).collect();
     let ex = ExactDist::new(&rows, &bgv);
-    Some(Setup { pssm, rows, bgv, fam, ex, m })
+    let ex_nowild = if wild_weight && rows.iter().any(|r| r[k - 1].is_finite()) {
+        rep.cover("matrix.finite_wildcard_under_weighted_wildcard");
+        let masked: Vec<Vec<f32>> = rows
+            .iter()
+            .map(|r| {
+                let mut r = r.clone();
+                r[k - 1] = f32::NEG_INFINITY;
+                r
+            })
+            .collect();
+        Some(ExactDist::new(&masked, &bgv))
+    } else {
+        None
+    };
+    let _ = wild_weight;
+    Some(Setup { pssm, rows, bgv, fam, ex, ex_nowild, m })
 }
 
 impl<A: Alphabet> Setup<A> {
@@ -330,11 +356,13 @@ fn case12<A: Alphabet>(case: u64, rng: &mut Rng, rep: &mut Report, alpha: &str, 
                 return;
             }
             if pmin < lo - noise {
-                rep.violate("c12.lower_bound", case, format!("score {} granularity {}: pmin {} < P(S >= s+(M+1)g) = {}", s, g, pmin, lo), wit());
+                let ignored = st.ex_nowild.as_ref().map_or(false, |a| pmin >= a.sf(s + (m + 1.0) * g) - noise);
+                rep.violate(if ignored { "c12.wildcard_symbol_ignored" } else { "c12.lower_bound" }, case, format!("score {} granularity {}: pmin {} < P(S >= s+(M+1)g) = {}", s, g, pmin, lo), wit());
                 return;
             }
             if pmax > hi + noise {
-                rep.violate("c12.upper_bound", case, format!("score {} granularity {}: pmax {} > P(S >= s-(M+2)g) = {}", s, g, pmax, hi), wit());
+                let ignored = st.ex_nowild.as_ref().map_or(false, |a| pmax <= a.sf(s - (m + 2.0) * g) + noise);
+                rep.violate(if ignored { "c12.wildcard_symbol_ignored" } else { "c12.upper_bound" }, case, format!("score {} granularity {}: pmax {} > P(S >= s-(M+2)g) = {}", s, g, pmax, hi), wit());
                 return;
             }
             if it.converged {
@@ -364,7 +392,8 @@ fn case12<A: Alphabet>(case: u64, rng: &mut Rng, rep: &mut Report, alpha: &str, 
                     let lo = ex.sf(s + (m + 1.0) * 0.1);
                     let hi = ex.sf(s - (m + 2.0) * 0.1);
                     if pv < lo - noise || pv > hi + noise {
-                        rep.violate("c12.final_pvalue", case, format!("pvalue({}) on the reused object = {} outside [{}, {}] (bounds at granularity 0.1)", s, pv, lo, hi), st.witness(alpha, J::obj().set("score", J::f(s))));
+                        let ignored = st.ex_nowild.as_ref().map_or(false, |a| pv >= a.sf(s + (m + 1.0) * 0.1) - noise && pv <= a.sf(s - (m + 2.0) * 0.1) + noise);
+                        rep.violate(if ignored { "c12.wildcard_symbol_ignored" } else { "c12.final_pvalue" }, case, format!("pvalue({}) on the reused object = {} outside [{}, {}] (bounds at granularity 0.1)", s, pv, lo, hi), st.witness(alpha, J::obj().set("score", J::f(s))));
                         return;
                     }
                 }
@@ -469,7 +498,8 @@ fn case13<A: Alphabet>(case: u64, rng: &mut Rng, rep: &mut Report, alpha: &str, 
             let upper_tail = ex.sf(t + d);
             let wit = |extra: J| st.witness(alpha, J::obj().set("p", J::f(p)).set("granularity", J::f(g)).set("threshold", J::f(t)).set("converged", J::Bool(it.converged)).set("object", J::s(if shared.is_some() { "reused" } else { "fresh" })).set("more", extra));
             if upper_tail > p + noise {
-                rep.violate("c13.upper_side", case, format!("p {} granularity {}: threshold {} but P(S >= t+d) = {} > p (d = {})", p, g, t, upper_tail, d), wit(J::Null));
+                let ignored = st.ex_nowild.as_ref().map_or(false, |a| a.sf(t + d) <= p + noise);
+                rep.violate(if ignored { "c13.wildcard_symbol_ignored" } else { "c13.upper_side" }, case, format!("p {} granularity {}: threshold {} but P(S >= t+d) = {} > p (d = {})", p, g, t, upper_tail, d), wit(J::Null));
                 return;
             }
             if let Some(u) = ex.largest_below(t - d) {
@@ -503,7 +533,17 @@ fn case13<A: Alphabet>(case: u64, rng: &mut Rng, rep: &mut Report, alpha: &str, 
                             Err(_) => false,
                         }
                     };
-                    let kind = if it.converged && same_as_reference { "c13.lower_side.converged_skips_attainable_score" } else { "c13.lower_side" };
+                    let ignored = st.ex_nowild.as_ref().map_or(false, |a| match a.largest_below(t - d) {
+                        None => true,
+                        Some(u2) => a.sf(u2 - d) >= p - noise,
+                    });
+                    let kind = if ignored {
+                        "c13.wildcard_symbol_ignored"
+                    } else if it.converged && same_as_reference {
+                        "c13.lower_side.converged_skips_attainable_score"
+                    } else {
+                        "c13.lower_side"
+                    };
                     rep.violate(
                         kind,
                         case,
@@ -543,7 +583,8 @@ fn case13<A: Alphabet>(case: u64, rng: &mut Rng, rep: &mut Report, alpha: &str, 
                 if let Ok(sc) = guard(|| tt.score(p)) {
                     let d = (m + 2.0) * 0.1;
                     if ex.sf(sc + d) > p + noise {
-                        rep.violate("c13.final_score", case, format!("score({}) on the reused object = {} but P(S >= t+d) = {} > p at d = (M+2) x 0.1", p, sc, ex.sf(sc + d)), st.witness(alpha, J::obj().set("p", J::f(p))));
+                        let ignored = st.ex_nowild.as_ref().map_or(false, |a| a.sf(sc + d) <= p + noise);
+                        rep.violate(if ignored { "c13.wildcard_symbol_ignored" } else { "c13.final_score" }, case, format!("score({}) on the reused object = {} but P(S >= t+d) = {} > p at d = (M+2) x 0.1", p, sc, ex.sf(sc + d)), st.witness(alpha, J::obj().set("p", J::f(p))));
                         return;
                     }
                 }
